@@ -6,7 +6,7 @@ META = {
     "functions": ["Params::{with_num_threads, with_chunk_size, is_sequential, default}", "From<usize> for NumThreads / ChunkSize",
                   "Par::{params, num_threads, chunk_size, map, filter, flat_map, filter_map} of all eight Par types",
                   "IntoPar / AsPar / IterIntoPar constructors (default params)"],
-    "bounds": {"quick": {"values": "num_threads, chunk_size: any usize (symbolic) at lazy sites; {0,1,2} x {0,1,2} at the eager sites",
+    "bounds": {"quick": {"values": "num_threads, chunk_size: any usize (symbolic) at lazy sites; {1} x {0,1,2} at the eager sites (the inner collect stays sequential)",
                          "chains": "8 Par types x 4 transformations, parameters set before the chain, re-set after the transformation"},
                "thorough": {"chains": "same, plus parameters set in the middle of 2-transformation chains and three sources"}},
     "outside": ["chains longer than type-reaching chain + 1 transformation + re-configuration"],
@@ -65,7 +65,9 @@ def harnesses(tier, seed):
         for opname in ("map", "filter", "filter_map", "flat_map"):
             eager = TRANSITIONS[(ty, opname)].endswith("!")
             if eager:
-                grid = ((1, 2), (1, 0)) if tier == "quick" else ((1, 0), (1, 1), (1, 2), (2, 1), (0, 2))
+                # num_threads != 1 makes the inner collect of an eager site a parallel heap merge over vectors of symbolic
+                # length: > 28 GB per query (measured); the params themselves are what this property is about
+                grid = ((1, 2), (1, 0)) if tier == "quick" else ((1, 0), (1, 1), (1, 2))
                 for xy in grid:
                     hs.append(h(ty, opname, "slice", concrete=xy))
             else:
